@@ -64,6 +64,8 @@ func main() {
 			usage()
 		}
 		os.Exit(runReplay(os.Args[2]))
+	case "racebodies":
+		os.Exit(RaceBodies())
 	case "list":
 		for _, id := range sortedKeys(registry) {
 			for _, t := range []string{"quick", "thorough"} {
